@@ -1,10 +1,24 @@
 #!/bin/bash
 # usage: sweep_some.sh <egrep pattern of ids>   -- sweeps matching seeded changes and merges into seeded/RESULTS.txt
+# (one line per id; a new result replaces the old one)
 pat=$1
 out=/verif/seeded/RESULTS.txt
 tmp=$(mktemp)
-ls /verif/seeded | grep -E '^C[0-9]+-[0-9]+$' | grep -E "$pat" | while read id; do echo "$id ${id%%-*}"; done | VERIF_SHRINK_S=${VERIF_SHRINK_S:-8} VERIF_JOBS=${VERIF_JOBS:-3} xargs -P ${PAR:-2} -L 1 /verif/tools/try_seeded.sh > $tmp 2>&1
-grep -vE "$(cut -d' ' -f1 $tmp | grep -E '^C[0-9]+-[0-9]+$' | paste -sd'|' | sed 's/|/ |^/g; s/^/^/; s/$/ /')" $out > $out.new 2>/dev/null || cp $out $out.new
-grep -E '^C[0-9]+-[0-9]+ ' $tmp >> $out.new
-sort -u $out.new > $out; rm -f $out.new $tmp
-wc -l $out
+ls /verif/seeded | grep -E '^C[0-9]+-[0-9]+$' | grep -E "$pat" | while read id; do chk=$(/venv/bin/python -c "import json,sys;print(json.load(open('/verif/seeded/$id/meta.json')).get('caught_by') or '${id%%-*}')"); echo "$id $chk"; done | VERIF_SHRINK_S=${VERIF_SHRINK_S:-8} VERIF_JOBS=${VERIF_JOBS:-3} xargs -P ${PAR:-2} -L 1 /verif/tools/try_seeded.sh > $tmp 2>&1
+/venv/bin/python - "$out" "$tmp" <<'PY'
+import re, sys
+out, tmp = sys.argv[1:3]
+rows = {}
+for path in (out, tmp):
+    try:
+        for line in open(path):
+            m = re.match(r"^(C[0-9]+-[0-9]+) ", line)
+            if m:
+                rows[m.group(1)] = line.rstrip() + "\n"   # later files win
+    except IOError:
+        pass
+key = lambda i: (i.split("-")[0], int(i.split("-")[1]))
+open(out, "w").write("".join(rows[i] for i in sorted(rows, key=key)))
+print(len(rows), "ids in", out)
+PY
+rm -f $tmp
